@@ -3,6 +3,7 @@ import RTV.Drv.WellFormed
 import RTV.Drv.Unit
 import RTV.Drv.Num
 import RTV.Drv.NumFrac
+import RTV.Drv.NumCjk
 import RTV.Drv.ResGen
 import RTV.Drv.Timex
 import RTV.Drv.Factory
@@ -41,6 +42,7 @@ def dispatch (line : String) : String :=
       <|> dispatchDtRes op args
       <|> dispatchNum op args
       <|> dispatchNumFrac op args
+      <|> dispatchNumCjk op args
       <|> dispatchSpan op args
       <|> dispatchUnitExtract op args
       -- <|> dispatchOther op args   (one alternative per layer)
